@@ -270,8 +270,8 @@ class FuzzyUnion(SameArrayShapeMixin, Command):
             arrays, lineno=self.argument_lines.get("InFieldNames")
         )
 
-        result = sum(arrays)
-        result /= float(len(arrays))
+        # Divide out of place: integer (crisp) inputs add up to an integer array, which can't hold the mean
+        result = sum(arrays) / float(len(arrays))
 
         return insure_fuzzy(result, FUZZY_MIN, FUZZY_MAX)
 
